@@ -225,6 +225,20 @@ Theorem C07_cache_fresh_for_inventory : forall ops,
 Proof. exact cache_fresh_inventory. Qed.
 Print Assumptions C07_cache_fresh_for_inventory.
 
+(* the key of a memoised conditional marginal determines the conditioning event: equal keys mean the
+   same target group and the same (qubit, outcome) conditions, so a hit can never return the
+   conditional of another event (together with C07_cache_fresh: of another circuit either) *)
+Theorem C07_conditional_key_determines_event : forall w f w' f', cond_key w f = cond_key w' f' ->
+  w = w' /\ forall q b, In (q, b) f <-> In (q, b) f'.
+Proof. exact cond_key_determines_event. Qed.
+Print Assumptions C07_conditional_key_determines_event.
+
+(* a key made of the outcome bits only (without the qubit labels) does not: different events collide *)
+Theorem C07_bits_only_conditional_key_collides :
+  cond_key_bits [2] [(0, 1)] = cond_key_bits [2] [(1, 1)] /\ cond_key [2] [(0, 1)] <> cond_key [2] [(1, 1)].
+Proof. exact bits_only_key_collides. Qed.
+Print Assumptions C07_bits_only_conditional_key_collides.
+
 (* the coverage hypothesis is necessary: a mutator that changes the circuit
    without changing num_gates or clearing produces a stale hit *)
 Theorem C07_uncovered_mutator_gives_stale_hit :
